@@ -48,10 +48,10 @@ def severityTable : List (String × Nat) := [
 
 /-- os.Exit sites of internal/cmd: (function, nearest enclosing if-condition, argument), as source text -/
 def cliExitTable : List (String × String × String) := [
-  ("check", "errorsCount != 0", "1"),
+  ("check", "GetErrorsCount() != 0", "1"),
   ("run", "len(parseResult.Errors) != 0", "1"),
   ("run", "err != nil", "1"),
-  ("Execute", "err != nil", "1")
+  ("Execute", "Execute() != nil", "1")
 ]
 
 def builtinDocs (name : String) : String :=
